@@ -49,6 +49,12 @@ type Tty struct {
 	WinSizeFail  bool // WindowSize returns an error while set
 	WriteFail    bool // Write returns an error while set
 	DrainErrs    int  // the next n Drains return an error (after waking the reader)
+	// DrainOnce: Drain does not make reads fail from then on (as a read
+	// deadline does); it wakes the reader once - the next Read, blocked now
+	// or entered later, returns (0, nil) - and does some more work before it
+	// returns.  "Ensures that the reader will wake up appropriately if it
+	// was blocked" is all the Tty contract asks of Drain.
+	DrainOnce bool
 	FailWrites   int  // the next n Writes fail with nothing written
 	ShortWrite   int  // the next Write longer than this accepts only this many bytes, then fails (0 = off)
 	OnFault      func(kind string)
@@ -160,6 +166,13 @@ func (t *Tty) Drain() error {
 	t.log("Drain", 0, false)
 	if t.Polling {
 		t.Faults.Inc("drain_noop")
+		return nil
+	}
+	if t.DrainOnce {
+		t.ZeroReads++
+		t.Faults.Inc("drain_wakes_once")
+		simrt.Yield("tty.Drain(after wake-up)")
+		simrt.Yield("tty.Drain(after wake-up)")
 		return nil
 	}
 	t.Drained = true
